@@ -26,6 +26,9 @@ var c12Ops = []string{"next", "nextHold", "offer", "restoreEvt", "resp", "respSt
 type c12Desc struct {
 	Snapshot bool     `json:"snapshot"`
 	Seq      []string `json:"seq"`
+	// AfterCrash: the sequence is issued by the runtime of the generation that follows a crash of the
+	// first one (one reset in between); an invocation is already waiting when that runtime starts
+	AfterCrash bool `json:"after_crash,omitempty"`
 }
 
 func genC12(tier string, seed int64) []Case {
@@ -33,6 +36,9 @@ func genC12(tier string, seed int64) []Case {
 	seen := map[string]bool{}
 	add := func(d c12Desc) {
 		id := fmt.Sprintf("C12/snap%v/%s", d.Snapshot, strings.Join(d.Seq, ","))
+		if d.AfterCrash {
+			id = "C12/aftercrash/" + strings.Join(d.Seq, ",")
+		}
 		if seen[id] {
 			return
 		}
@@ -47,6 +53,9 @@ func genC12(tier string, seed int64) []Case {
 	rec = func(cur []string) {
 		if len(cur) > 0 {
 			add(c12Desc{Snapshot: false, Seq: append([]string{}, cur...)})
+			if (tier == "thorough" && len(cur) <= 3) || len(cur) <= 2 {
+				add(c12Desc{AfterCrash: true, Seq: append([]string{}, cur...)})
+			}
 			if tier == "thorough" || len(cur) <= 2 {
 				add(c12Desc{Snapshot: true, Seq: append([]string{}, cur...)})
 			}
@@ -83,7 +92,7 @@ func genC12(tier string, seed int64) []Case {
 		if snap && r.Intn(2) == 0 {
 			seq = append([]string{"restnext"}, seq...)
 		}
-		add(c12Desc{Snapshot: snap, Seq: seq})
+		add(c12Desc{Snapshot: snap, Seq: seq, AfterCrash: !snap && r.Intn(4) == 0})
 	}
 	return cases
 }
@@ -117,6 +126,32 @@ func runC12(c *Ctx, d c12Desc) {
 		c.Inconclusive("harness: runtime not started")
 		return
 	}
+	var pendingInv *vh.Invocation
+	var pendingPayload []byte
+	if d.AfterCrash {
+		// generation 1: one invocation during which the runtime dies (exactly one reset follows)
+		g1 := w.Party(rtp)
+		n1 := vh.Go(func() *vh.Resp { return g1.Next() })
+		vh.Settle(n1, func() bool { return w.E.RuntimeState() == "Ready" }, 3*time.Second)
+		pre := w.E.InvokeAsync([]byte("event-pre"), vh.InvokeOpts{})
+		if r := n1.Wait(5 * time.Second); r == nil || r.Status != 200 {
+			c.Inconclusive("harness: first generation did not get its event")
+			return
+		}
+		rtp.RequestExit(vh.Exit{Code: 1})
+		if !pre.Wait(10 * time.Second) {
+			c.Inconclusive("harness: the crashed invocation never returned")
+			return
+		}
+		// the next invocation starts generation 2 and waits for its runtime
+		pendingPayload = []byte("event-1")
+		pendingInv = w.E.InvokeAsync(pendingPayload, vh.InvokeOpts{})
+		rtp = w.E.WaitRuntime(2, 8*time.Second)
+		if rtp == nil {
+			c.Check(false, "next_generation_starts", "C12/aftercrash/no-new-runtime", "no runtime was started for the invocation that follows a crash", nil)
+			return
+		}
+	}
 	conn1 := w.Party(rtp)
 	conn2 := vh.NewParty("rt:"+rtp.Name+"#2", w.E.Addr, w.E.Log, rtp.Ctx)
 
@@ -134,7 +169,12 @@ func runC12(c *Ctx, d c12Desc) {
 	deliver := func() bool {
 		invN++
 		payload := []byte(fmt.Sprintf("event-%d", invN))
-		inv := w.E.InvokeAsync(payload, vh.InvokeOpts{})
+		var inv *vh.Invocation
+		if pendingInv != nil {
+			inv, payload, pendingInv = pendingInv, pendingPayload, nil
+		} else {
+			inv = w.E.InvokeAsync(payload, vh.InvokeOpts{})
+		}
 		invs = append(invs, inv)
 		r := parked.Wait(5 * time.Second)
 		if !c.Check(r != nil && r.Status == 200, "next_delivers", "C12/next-not-delivered/"+m.state, "a parked next did not return the offered invocation", strings.Join(trace, ",")) {
@@ -215,6 +255,14 @@ func runC12(c *Ctx, d c12Desc) {
 			if blocking {
 				prev := m.state
 				a := vh.Go(func() *vh.Resp { return conn1.Next() })
+				if pendingInv != nil && prev == "Started" {
+					// an invocation is already waiting: this first next completes the initialisation and is served at once
+					parked, parkedOp, m.state = a, "next", "Parked"
+					if !deliver() {
+						return
+					}
+					continue
+				}
 				if settlePark(a, "Ready") {
 					r := a.R
 					c.Check(false, "next_blocks", fmt.Sprintf("C12/next-did-not-block/%s/%d", prev, r.Status), fmt.Sprintf("next in state %s returned %d %s instead of blocking until an invocation is available", prev, r.Status, r.Etype), strings.Join(trace, ","))
@@ -291,6 +339,12 @@ func runC12(c *Ctx, d c12Desc) {
 				} else {
 					m.state = "InitError"
 				}
+				if d.AfterCrash && exp.status == 202 {
+					// the waiting invocation now fails and the environment is reset: end of this generation
+					c.State(m.state)
+					c.SetTrace("aftercrash:"+strings.Join(trace, ",")+"->InitError", true)
+					return
+				}
 			}
 		case "restnext":
 			if parked != nil {
@@ -366,7 +420,7 @@ func runC12(c *Ctx, d c12Desc) {
 			c.Check(false, "restore_error_reported", "C12/restore-hangs-after-error", "restore did not return after the runtime reported an error", nil)
 		}
 	}
-	c.SetTrace(fmt.Sprintf("%v:", d.Snapshot)+strings.Join(d.Seq, ",")+"->"+m.state, len(d.Seq) > 0)
+	c.SetTrace(fmt.Sprintf("%v%v:", d.Snapshot, d.AfterCrash)+strings.Join(d.Seq, ",")+"->"+m.state, len(d.Seq) > 0)
 	if c.WantSample || c.Violated() {
 		c.SetSample(sampleLog(w, 120))
 	}
